@@ -25,7 +25,7 @@ ASSUMPTIONS = [
 REQUIRED = {"op.append": 200, "op.extend": 100, "op.iterate.nested": 100, "op.iterate.zip": 50, "op.iterate.abandoned": 50,
             "op.write-through": 200, "op.dump": 100, "op.serialise": 50, "inspect": 3000, "view.checked": 3000,
             "op.slice": 50, "view.held-checked": 300, "op.grow-refused": 30, "source.checked": 300, "op.write-through.held": 30, "construct.list": 20, "construct.molecule": 20, "construct.ensemble": 20, "construct.atoms": 20,
-            "bystander.checked": 300, "op.edit-constructor-source": 30}
+            "bystander.checked": 300, "op.grow-from-itself": 30, "op.edit-constructor-source": 30}
 CHUNK_TIMEOUT = 900
 TECHNIQUE = "runtime monitoring: rectangular-array reference model stepped beside the real ensemble + iteration-pattern oracle"
 LEVEL_TEXT = ("Held on the operation histories produced: after every operation the ensemble's three arrays, every conformer view "
@@ -240,6 +240,35 @@ class Driver:
             return self.inspect(self.kinds[-1])
         r = rng.random()
         exact = True
+        if m.nc >= 1 and rng.random() < 0.06:
+            # the ensemble grows by its own content: one of its conformers, a list / generator of them, or itself
+            how = rng.choice(["append-own-conformer", "extend-own-list", "extend-own-generator", "extend-self"])
+            self.kinds.append(f"grow-from-itself:{how}")
+            ctx.count("op.grow-from-itself")
+            try:
+                if how == "append-own-conformer":
+                    i = rng.randrange(m.nc)
+                    e.append(e[i])
+                    rows, ws = [i], [1.0]
+                elif how == "extend-own-list":
+                    rows = [rng.randrange(m.nc) for _ in range(rng.choice([1, 2]))]
+                    e.extend([e[i] for i in rows])
+                    ws = [1.0] * len(rows)
+                elif how == "extend-own-generator":
+                    rows = list(range(m.nc))
+                    e.extend(c for c in list(e))
+                    ws = [1.0] * len(rows)
+                else:
+                    rows = list(range(m.nc))
+                    e.extend(e)
+                    ws = list(m.weights)
+            except Exception as ex:  # noqa
+                return self.v(f"grow-from-itself:{how}:raises:{type(ex).__name__}", err=repr(ex)[:200])
+            m.coords = np.concatenate([m.coords, m.coords[rows]], axis=0)
+            m.charges = np.concatenate([m.charges, m.charges[rows]], axis=0)
+            m.weights = np.concatenate([m.weights, ws])
+            self.grown_at = len(self.kinds)
+            return self.inspect(self.kinds[-1])
         try:
             if r < 0.16:
                 kind = "append"
